@@ -43,6 +43,18 @@ def run(ck):
     cc = ck.build_cproc_qbe()
     d = os.path.join(ck.scratch(), "c01")
     os.makedirs(d)
+    # known-finding witness: must still fail (else note 'model stale')
+    wsrc = ("void out(long);\nstruct S {long long a; float b[3]; unsigned char c; unsigned long d:5; unsigned short e;};\n"
+            "static long g(struct S s){ return s.a + s.c + s.d + s.e; }\n"
+            "int main(void){ struct S v = {1, {0}, 2, 3, 4}; out(g(v)); return 0; }\n")
+    wp = os.path.join(d, "witness_bf.c")
+    open(wp, "w").write(wsrc)
+    rc, err = progrun.compile_c(cc, "x86_64-sysv", wp, wp + ".ssa")
+    il = oracle.il_trace(progrun.drv03(), wp + ".ssa") if rc == 0 else ["rejected"]
+    if il != ["out 10", "ret 0"]:
+        ck.report({"kind": "known-witness", "program": wsrc, "il_semantics": il}, fid="bitfield-unit-overlap-descriptor")
+    else:
+        ck.notes.append("model stale: witness of bitfield-unit-overlap-descriptor now behaves correctly")
     n = 90 if ck.quick else 2400
     stats = {"programs": 0, "dropped-undefined": 0, "compared": 0, "trace-items": 0, "drop-reasons": {}}
     feats = {}
